@@ -155,6 +155,30 @@ def check(tier, seed):
     setter = getattr(Schema.__dict__.get("default_resolver"), "fset", None)
     if setter is not None:
         mutators.append(("default_resolver (setter)", setter))
+    # only validate() itself may record a verdict: nowhere else in the schema package is a remembered attribute assigned anything but None
+    import glob as _glob
+    import os as _os
+    import py_gql.schema as _S
+    asserted = []
+    for path_ in sorted(_glob.glob(_os.path.join(_os.path.dirname(_S.__file__), "**", "*.py"), recursive=True)):
+        tree_ = ast.parse(open(path_).read())
+        for fn_ in [x for x in ast.walk(tree_) if isinstance(x, (ast.FunctionDef, ast.AsyncFunctionDef))]:
+            if fn_.name == "validate":
+                continue
+            for x in ast.walk(fn_):
+                if isinstance(x, ast.Assign) and not (isinstance(x.value, ast.Constant) and x.value.value is None):
+                    for t in x.targets:
+                        if isinstance(t, ast.Attribute) and t.attr in memo_attrs:
+                            asserted.append((_os.path.basename(path_), fn_.name, x.lineno, ast.unparse(x)))
+    if memo_attrs:
+        run.cov["obligations"] += 1
+        run.cov["backends"]["syntactic-path enumeration"] = run.cov["backends"].get("syntactic-path enumeration", 0) + 1
+        if asserted:
+            f_, fn_name, line_, text_ = asserted[0]
+            run.violation("Schema:verdict-recorded-by-validate-only", "%s:%d, %s(): `%s` records a validation verdict without validating (only validate() may; everything "
+                          "else resets it)" % (f_, line_, fn_name, text_), {"file": f_, "function": fn_name, "line": line_, "statement": text_}, False)
+        else:
+            run.cov["discharged"] += 1
     for attr in memo_attrs:
         def is_action(text, stmt, attr=attr):
             if text != "self." + attr or not isinstance(stmt, ast_Assign):
@@ -264,6 +288,55 @@ def check(tier, seed):
             run.violation("validate:recomputed-after-resolver-change",
                           "after validate(); %s(bad resolver); validate() keeps the stale verdict although validate_schema() rejects" % how,
                           {"history": ["validate", how, "validate"]}, True)
+    # rule "resolver signatures compatible with field arguments", against the calling convention itself: a resolver is compatible exactly when the call
+    # resolver(root, context, info, **arguments) binds for every set of arguments a request can produce (required and defaulted ones always, optional
+    # ones in every combination) - decided by making that call on a side-effect-free function of the given signature
+    import itertools as _it
+    SIGNATURES = ["root, ctx, info", "root, ctx, info, **kw", "*args", "*args, **kw", "root, ctx, info, x", "root, ctx, info, x=None", "root, ctx, info, *, x",
+                  "root, ctx, info, *, x=None", "*args, x", "*args, x=None", "*args, tenant", "*args, tenant, **kw", "*args, tenant=1, **kw", "root, ctx, *rest, x=None",
+                  "root, ctx, info, x=None, **kw", "root, ctx, x=None, *rest", "root, ctx", "root, ctx, info, extra", "root, ctx, info, extra=1", "root, ctx, info, args=None",
+                  "root, ctx, info, **args", "root, ctx, info, x, y", "root, ctx, info, x=None, y=None", "root, ctx, info, *, x, y=2", "root, ctx, info, y=None, **kw",
+                  "self_, ctx, info, x=None", "root, ctx, info, x=None, *more", "root, ctx, info, *more, **kw", "root, *rest, x=None, **kw", "root, ctx, info, /",
+                  "root, ctx, info, /, x=None", "root, ctx, info, x=None, /", "root, ctx, info, x=None, /, **kw", "*args, x, **kw", "*a, y=None, **kw"]
+    ARGUMENTS = ["", "x: Int", "x: Int!", "x: Int = 1", "x: Int! = 1", "x: Int, y: Int", "x: Int!, y: Int = 2", "args: [String]", "args: [String]!", "kw: Int", "info: Int"]
+    for how in ("resolver", "subscription"):
+        for sig in SIGNATURES:
+            ns_ = {}
+            exec("def r(%s): return 1" % sig, ns_)
+            for fargs_text in ARGUMENTS:
+                sdl = "type Query { f%s: Int } type Subscription { f%s: Int }" % (("(%s)" % fargs_text if fargs_text else "",) * 2)
+                sch = build_schema(sdl)
+                if how == "resolver":
+                    sch.register_resolver("Query", "f", ns_["r"])
+                else:
+                    sch.register_subscription("Subscription", "f", ns_["r"])
+                fargs = [(x.name, x.required, x.has_default_value) for x in sch.query_type.field_map["f"].arguments]
+                always = [x for x, req, d in fargs if req or d]
+                optional = [x for x, req, d in fargs if not (req or d)]
+                compatible = True
+                for k in range(len(optional) + 1):
+                    for sub in _it.combinations(optional, k):
+                        try:
+                            ns_["r"]("root", "context", "info", **{x: 1 for x in always + list(sub)})
+                        except TypeError:
+                            compatible = False
+                n += 1
+                nontrivial += 1
+                w = {"signature": "def %s(%s)" % (how, sig), "field": "f(%s)" % fargs_text}
+                try:
+                    sch.validate()
+                    accepted = True
+                except SchemaError as e:
+                    accepted, why = False, str(e)
+                except Exception as e:
+                    run.violation("validate:only-schema-errors", "validating a schema with %s for f(%s) raised %r" % (w["signature"], fargs_text, e), dict(w, exc=type(e).__name__), True)
+                    continue
+                if accepted and not compatible:
+                    run.violation("validate:rejects-each-violation", "%s is accepted for f(%s) although a call resolver(root, context, info, **arguments) the executor can make "
+                                  "raises TypeError" % (w["signature"], fargs_text), dict(w, violation="resolver-signature"), True)
+                if compatible and not accepted:
+                    run.violation("validate:accepts-valid-schemas", "%s is rejected for f(%s) although every call the executor can make binds: %s" % (w["signature"], fargs_text, why),
+                                  dict(w, errors=[why]), True)
     # the other direction: a schema rejected because of a resolver, repaired through the same interfaces, must be accepted on the next validate()
     good = lambda root, ctx, info, **kw: 1          # noqa: E731
     for how in ("register_resolver", "register_default_resolver", "decorator-wildcard", "register_subscription", "assign-default_resolver"):
@@ -308,6 +381,58 @@ def check(tier, seed):
             run.violation("validate:recomputed-after-resolver-change",
                           "after a rejected validate(); %s(good resolver); validate() still raises the old error although validate_schema() accepts: %s" % (how, e),
                           {"history": ["validate (rejected)", how + " (repair)", "validate"]}, True)
+    # schemas DERIVED from a validated one (transform_schema with visitors that hide members or assign resolvers in place; clone): the derived schema's
+    # validate() is a verdict about the derived schema - it agrees with validate_schema() on it
+    from py_gql.schema import SchemaVisitor
+    from py_gql.schema.transforms import VisibilitySchemaTransform, transform_schema
+
+    class _Hide(VisibilitySchemaTransform):
+        def __init__(self, typename, fieldname):
+            self.target = (typename, fieldname)
+
+        def is_field_visible(self, typename, fieldname):
+            return (typename, fieldname) != self.target
+
+        def is_input_field_visible(self, typename, fieldname):
+            return (typename, fieldname) != self.target
+
+    class _Assign(SchemaVisitor):
+        def on_object(self, object_type):
+            if object_type.name == "Query":
+                object_type.field_map["search"].resolver = lambda root, ctx, info: []
+            return super().on_object(object_type)
+    DERIVE_SDL = "interface Named { name: String } type Foo implements Named { id: ID name: String } type Bar { only: Int } input In { only: Int } " \
+                 "type Query { foo: Foo bar: Bar search(q: String, filter: In): [Named] }"
+    for label, make in [("hide an interface field on the implementer", lambda: _Hide("Foo", "name")), ("hide the only field of an object", lambda: _Hide("Bar", "only")),
+                        ("hide the only field of an input object", lambda: _Hide("In", "only")), ("assign an incompatible resolver in place", _Assign),
+                        ("hide nothing", lambda: _Hide("Nope", "nope"))]:
+        src_schema = build_schema(DERIVE_SDL)
+        src_schema.validate()
+        n += 1
+        nontrivial += 1
+        derived, refused = None, False
+        try:
+            derived = transform_schema(src_schema, make())
+        except SchemaError:
+            refused = True          # (refusing the invalid result outright is a correct answer too)
+        except Exception as e:
+            run.violation("validate:only-schema-errors", "transform_schema (%s) raised %r" % (label, e), {"history": ["validate", label], "exc": type(e).__name__}, True)
+            continue
+        if derived is None:
+            continue
+        fresh_rejects = False
+        try:
+            validate_schema(derived)
+        except SchemaValidationError:
+            fresh_rejects = True
+        memo_rejects = False
+        try:
+            derived.validate()
+        except SchemaError:
+            memo_rejects = True
+        if fresh_rejects != memo_rejects:
+            run.violation("validate:recomputed-after-resolver-change", "schema derived from a validated one (%s): validate() says %s, validate_schema() on the same object says %s"
+                          % (label, "invalid" if memo_rejects else "valid", "invalid" if fresh_rejects else "valid"), {"history": ["validate", "transform_schema: " + label, "validate"]}, True)
     # histories through Schema._replace_types_and_directives: the memoised verdict must be dropped and references healed
     from py_gql.schema import Directive, Field, Int, ObjectType
     for label in ("remove-directive", "replace-directive", "replace-type-then-unchanged-type", "unchanged-type-then-replace-type"):
